@@ -3,5 +3,5 @@ From SL Require Import Base.Bytes FS.Model FS.Run.
 Extraction Language OCaml.
 Extraction "fs_gen.ml" byte_of_N byte_to_N parse_dec_Z decZ dec split_slash
   init_fs step exec run_reset run_up run_fetch run_discard gen_data digest
-  render trace_up trace_discard check_op durable_ok render_failure spec_get spec_set key_path
+  render trace_up trace_discard trace_up_fault check_op durable_ok render_failure spec_get spec_set key_path
   localize store tmp_name base upload tree.
